@@ -227,3 +227,47 @@ func extractMapRanges(repo string) []site {
 	sort.SliceStable(out, func(i, j int) bool { return out[i].Key < out[j].Key })
 	return out
 }
+
+// Inventory of the places where the library starts goroutines or creates channels (C09 / C19): every `go` statement and
+// every `make(chan ...)`, keyed by file and function, with a digest of the whole enclosing function - a new goroutine, or
+// a change of the code around an existing one (what it captures, what is locked, what is waited for), changes the inventory.
+func extractGoStmts(repo string) []site {
+	out := []site{}
+	for _, rel := range libraryFiles(repo) {
+		f := parseFile(filepath.Join(repo, rel))
+		for _, d := range f.Decls {
+			fn, ok := d.(*ast.FuncDecl)
+			if !ok || fn.Body == nil {
+				continue
+			}
+			name := fn.Name.Name
+			if fn.Recv != nil && len(fn.Recv.List) > 0 {
+				name = recvName(fn.Recv.List[0].Type) + "." + name
+			}
+			kinds := []string{}
+			ast.Inspect(fn.Body, func(n ast.Node) bool {
+				switch s := n.(type) {
+				case *ast.GoStmt:
+					kinds = append(kinds, "go")
+				case *ast.CallExpr:
+					if id, ok := s.Fun.(*ast.Ident); ok && id.Name == "make" && len(s.Args) > 0 {
+						if _, ok := s.Args[0].(*ast.ChanType); ok {
+							kinds = append(kinds, "chan")
+						}
+					}
+				case *ast.SelectStmt:
+					kinds = append(kinds, "select")
+				}
+				return true
+			})
+			if len(kinds) == 0 {
+				continue
+			}
+			h := fnv.New64a()
+			h.Write([]byte(exprText(fn.Body)))
+			out = append(out, site{Key: rel + " " + name + ": " + strings.Join(kinds, " "), Hash: h.Sum64() >> 1})
+		}
+	}
+	sort.SliceStable(out, func(i, j int) bool { return out[i].Key < out[j].Key })
+	return out
+}
